@@ -31,6 +31,7 @@ fn main() {
         "deflate-replay-hex" => deflate::replay_hex(&args),
         "deflate-info" => deflate::info(&args),
         "deflate-edge-replay" => deflate::edge_replay(&args),
+        "deflate-pairs" => deflate::pairs_replay(&args),
         "deflate-pack" => deflate::pack(&args),
         "deflate-short" => deflate::exhaustive_short(&args),
         "container-replay" => container::replay(&args),
